@@ -241,3 +241,6 @@ V('C20-allocator-no-guard', 'C20', [(KS, "        if name not in self._evars:\n 
 V('C20-substitutions-resolve', 'C20', [(KS, '            name = scope.lookup_metavar(var_name).name', '            name = scope.resolve_metavar(var_name).name')], names='convert_substitutions')
 V('C20-scope-shared-between-axioms', 'C20', [(KS, "                                scope = ConvertionScope()\n                                parsed_pattern = semantics._convert_pattern(scope, preprocessed_pattern)", "                                parsed_pattern = semantics._convert_pattern(scope, preprocessed_pattern)")], names='scope-per-axiom')
 V('C20-twin-if-raise', 'C20', [(KE, "        assert (\n            lhs == self.current_configuration\n        ), f'The current configuration {lhs.pretty(self.pretty_options())} does not match the lhs of the rule {rule.pattern.pretty(self.pretty_options())}'", "        if not (lhs == self.current_configuration):\n            raise AssertionError('The current configuration does not match the lhs of the rule')")], expect='silent')
+
+# ---------------------------------------------------------------- C01 equality
+V('C01-custom-eq-ignores-plug', 'C01', [(RS, '#[derive(Debug, Eq, PartialEq, Clone)]\npub enum Pattern {', '#[derive(Debug, Eq, Clone)]\npub enum Pattern {'), (RS, 'impl Pattern {\n    fn e_fresh(&self, evar: Id) -> bool {', 'impl PartialEq for Pattern {\n    fn eq(&self, other: &Pattern) -> bool {\n        match (self, other) {\n            (Pattern::EVar(a), Pattern::EVar(b)) => a == b,\n            (Pattern::SVar(a), Pattern::SVar(b)) => a == b,\n            (Pattern::Symbol(a), Pattern::Symbol(b)) => a == b,\n            (Pattern::Implies { left: a, right: b }, Pattern::Implies { left: c, right: d }) => a == c && b == d,\n            (Pattern::App { left: a, right: b }, Pattern::App { left: c, right: d }) => a == c && b == d,\n            (Pattern::Exists { var: a, subpattern: b }, Pattern::Exists { var: c, subpattern: d }) => a == c && b == d,\n            (Pattern::Mu { var: a, subpattern: b }, Pattern::Mu { var: c, subpattern: d }) => a == c && b == d,\n            (Pattern::MetaVar { id: a, .. }, Pattern::MetaVar { id: b, .. }) => a == b,\n            (Pattern::ESubst { pattern: a, evar_id: b, .. }, Pattern::ESubst { pattern: c, evar_id: d, .. }) => a == c && b == d,\n            (Pattern::SSubst { pattern: a, svar_id: b, plug: e }, Pattern::SSubst { pattern: c, svar_id: d, plug: f }) => a == c && b == d && e == f,\n            _ => false,\n        }\n    }\n}\n\nimpl Pattern {\n    fn e_fresh(&self, evar: Id) -> bool {')], names='structural-equality')
